@@ -1116,7 +1116,7 @@ func genGoLiteBind(repo string) (string, error) {
 	out := goliteHeader + "(* bind.go: DefaultBinder.Bind (which sources are consulted, in which order) and DefaultBinder.BindBody (which decoder a\n   Content-Type selects).  The binders and decoders themselves are external calls (events; their error comes from the input\n   stream); the media type computed from the Content-Type header comes from the input stream too. *)\n"
 	ext := map[string]bool{"b.BindPathParams": true, "b.BindQueryParams": true, "strings.Cut": true, "strings.TrimSpace": true,
 		"c.Echo().JSONSerializer.Deserialize": true, "xml.NewDecoder(req.Body).Decode": true, "c.FormParams": true, "c.MultipartForm": true, "b.bindData": true}
-	for _, nm := range []string{"Bind", "BindBody"} {
+	for _, nm := range []string{"Bind", "BindBody", "BindQueryParams", "BindHeaders"} {
 		fd := findFunc(f, "*DefaultBinder", nm)
 		if fd == nil {
 			return "", fmt.Errorf("DefaultBinder.%s not found", nm)
